@@ -219,9 +219,17 @@ pub fn generate(rng: &mut Rng, tier: Tier, emit: &mut dyn FnMut(String)) {
             let mut alive_answers = n;
             for _ in 0..rng.range(1, 5) {
                 match rng.below(10) {
-                    0..=4 => {
+                    0..=2 => {
                         let b = rng.pick(&good).clone();
                         ops.push(format!("b{}", hex(&frame_bytes(0, -1, 0x0C, &b))));
+                    }
+                    3 | 4 => {
+                        // an EVENT frame that carries body extensions (tracing id / warnings / custom payload, in
+                        // this order before the event; unknown flag bits mean nothing): forwarded like any other
+                        let fl = *rng.pick(&[0x02u8, 0x08, 0x04, 0x0A, 0x06, 0x0C, 0x0E, 0x10, 0x80, 0x92]);
+                        let mut b = ext_prefix(fl);
+                        b.extend_from_slice(&rng.pick(&good).clone());
+                        ops.push(format!("b{}", hex(&frame_bytes(fl, -1, 0x0C, &b))));
                     }
                     5 if alive_answers > 0 => {
                         ops.push("r0".into());
@@ -233,6 +241,23 @@ pub fn generate(rng: &mut Rng, tier: Tier, emit: &mut dyn FnMut(String)) {
                         let b = rng.pick(&good).clone();
                         let cut = rng.below(b.len() as u64) as usize;
                         ops.push(format!("b{}", hex(&frame_bytes(0, -1, 0x0C, &b[..cut]))));
+                    }
+                    8 if rng.bool() => {
+                        // flags that announce an extension the body does not carry (or carries cut short), and the
+                        // COMPRESSION flag on a connection that negotiated none: CqlEventHandlingError
+                        let fl = *rng.pick(&[0x02u8, 0x08, 0x04, 0x0E, 0x01, 0x03]);
+                        let mut b = ext_prefix(fl & 0x0E);
+                        if fl & 1 == 0 {
+                            b.truncate(rng.below(b.len() as u64) as usize);
+                            if rng.bool() {
+                                // no extension at all: the event's own bytes are read as the announced extension
+                                b.clear();
+                                b.extend_from_slice(&rng.pick(&good).clone());
+                            }
+                        } else {
+                            b.extend_from_slice(&rng.pick(&good).clone());
+                        }
+                        ops.push(format!("b{}", hex(&frame_bytes(fl, -1, 0x0C, &b))));
                     }
                     8 => ops.push(format!("b{}", hex(&frame_bytes(0, -1, *rng.pick(&[0x08u8, 0x02, 0x00, 0x06]), &rng.bytes(4))))),
                     _ => ops.push(format!("b{}", hex(&frame_bytes(0, *rng.pick(&[-2i16, -7, i16::MIN]), 0x0C, &good[0])))),
@@ -262,6 +287,24 @@ pub fn generate(rng: &mut Rng, tier: Tier, emit: &mut dyn FnMut(String)) {
             }
             ops.push("s".into());
             emit(format!("conne {}/{} {}", rng.below(2), mode, ops.join(";")));
+        }
+        // the control connection's configuration - an event sender AND keep-alive: a reader parked on a full event
+        // channel does not see the probe's answer, so the keep-alive timeout ends the router (and nothing else does)
+        for i in 0..(if quick { 40 } else { 600 }) {
+            let mode = [2u8, 2, 0, 1][i % 4];
+            let (iv, to) = *rng.pick(&[(300u64, 200u64), (1000, 500), (200, 1000)]);
+            let n = rng.range(0, 4) as usize;
+            let mut ops: Vec<String> = vec!["s".to_owned(); n];
+            for _ in 0..rng.range(2, 8) {
+                match rng.below(10) {
+                    0..=3 => ops.push(format!("b{}", hex(&frame_bytes(0, -1, 0x0C, &rng.pick(&good).clone())))),
+                    4 | 5 => ops.push(format!("t{}", *rng.pick(&[100u64, iv / 2, iv, iv + 10, to]))),
+                    6 | 7 => ops.push(format!("r{}", rng.below(3))),
+                    8 => ops.push("h".into()),
+                    _ => ops.push("s".into()),
+                }
+            }
+            emit(format!("conne {}/{}/{}/{} {}", rng.below(2), mode, iv, to, ops.join(";")));
         }
     }
     // hints: long before the first tick; while a probe is in flight (stored, consumed afterwards); twice (one permit)
@@ -383,6 +426,40 @@ fn run_frames(bytes: &[u8], ctx: &mut Ctx) -> String {
     format!("{} | {}", if out.is_empty() { "-".to_owned() } else { out.join(" ") }, tail)
 }
 
+/// The body extensions this harness puts in front of a flagged response (protocol v4 §2.2: tracing id, warnings,
+/// custom payload, in this order).
+fn ext_prefix(flags: u8) -> Vec<u8> {
+    use crate::mocknode::w_string;
+    let mut b = Vec::new();
+    if flags & 0x02 != 0 {
+        b.extend_from_slice(&[0x11; 16]);
+    }
+    if flags & 0x08 != 0 {
+        b.extend_from_slice(&2u16.to_be_bytes());
+        w_string(&mut b, "w1");
+        w_string(&mut b, "a second warning");
+    }
+    if flags & 0x04 != 0 {
+        b.extend_from_slice(&1u16.to_be_bytes());
+        w_string(&mut b, "k");
+        b.extend_from_slice(&3i32.to_be_bytes());
+        b.extend_from_slice(&[1, 2, 3]);
+    }
+    b
+}
+
+/// Is entry `idx` of `sim.sent` an EVENT frame this harness knows to be well formed (its flags' extensions in the
+/// harness's form, then a well-formed event)?
+fn known_good_event(sim: &ConnSim, idx: usize, good: &[Vec<u8>]) -> bool {
+    let (_, stream, body) = &sim.sent[idx];
+    let (flags, opcode) = sim.raw_hdr.iter().find(|(i, _, _)| *i == idx).map(|(_, f, o)| (*f, *o)).unwrap_or((0, 0x0C));
+    if *stream != -1 || opcode != 0x0C || flags & 0x01 != 0 {
+        return false;
+    }
+    let pre = ext_prefix(flags);
+    body.len() >= pre.len() && body[..pre.len()] == pre[..] && good.iter().any(|g| g[..] == body[pre.len()..])
+}
+
 /// Well-formed EVENT bodies (protocol v4): what `EventV2::deserialize` accepts.
 fn event_bodies() -> Vec<Vec<u8>> {
     use crate::mocknode::w_string;
@@ -449,8 +526,7 @@ fn run_conn_ev(wc: bool, ka: Option<(u64, u64)>, ev_mode: Option<u8>, ops: &[&st
             // ORACLE: every forwarded event is a well-formed EVENT frame the server sent on stream -1 (in order); on a
             // connection that did not break all of them are forwarded
             let good = event_bodies();
-            let sent_events: Vec<&(Option<Vec<u8>>, i16, Vec<u8>)> =
-                sim.sent.iter().filter(|(_, s, b)| *s == -1 && good.contains(b)).collect();
+            let sent_events: Vec<usize> = (0..sim.sent.len()).filter(|i| known_good_event(&sim, *i, &good)).collect();
             if sim.events_seen.len() > sent_events.len() {
                 ctx.fail(format!("{} events forwarded, only {} well-formed EVENT frames were sent", sim.events_seen.len(), sent_events.len()));
             }
@@ -744,6 +820,15 @@ pub fn run(case: &str, ctx: &mut Ctx) -> String {
                 (Some(wc @ ("0" | "1")), Some(mode)) if cfg.len() <= 2 => {
                     run_conn_ev(wc == "1", None, Some(mode), &ops(w.get(2)), ctx)
                 }
+                // the control connection's configuration: an event sender AND keep-alive
+                (Some(wc @ ("0" | "1")), Some(mode)) if cfg.len() == 4 && w.len() == 3 => {
+                    match (cfg[2].parse::<u64>(), cfg[3].parse::<u64>()) {
+                        (Ok(i), Ok(t)) if i > 0 && t > 0 && i <= 60000 && t <= 60000 => {
+                            run_conn_ev(wc == "1", Some((i, t)), Some(mode), &ops(w.get(2)), ctx)
+                        }
+                        _ => "bad-case".to_owned(),
+                    }
+                }
                 _ => "bad-case".to_owned(),
             }
         }
@@ -752,6 +837,9 @@ pub fn run(case: &str, ctx: &mut Ctx) -> String {
             Err(_) => "bad-case".to_owned(),
         },
         Some("pool") if w.len() == 3 => crate::c10_pool::run(w[1], w[2], ctx),
+        Some("rp") if w.len() == 3 => crate::c10_pool::run_rp(w[1], w[2], ctx),
+        Some("rp") if w.len() == 2 => crate::c10_pool::run_rp(w[1], "", ctx),
+        Some("poolr") if w.len() == 2 => crate::c10_pool::run_poolr(w[1], ctx),
         Some("race") if w.len() == 3 => match w[2].parse::<u64>() {
             Ok(seed) => run_race(w[1], seed, ctx),
             Err(_) => "bad-case".to_owned(),
